@@ -55,6 +55,30 @@ class SArr:
         pos = z3.simplify(it + n) if interp.ex.branch(it < 0) else z3.simplify(it)
         return self.at(interp, pos)
 
+    def is_none_at(self, interp, idx, node):
+        """`self[idx] is None` decided by a two-way fork on the cell's type tag (blank / not blank) instead of
+        reading the cell (a six-way fork over its type); None when this array is not a plain vector of cells"""
+        if len(self.dims) != 1 or self.elem is not None or isinstance(idx, (SBool, bool)) or \
+                not isinstance(idx, (SInt, int)):
+            return None
+        it = as_int_term(idx)
+        n = self.dims[0]
+        ex = interp.ex
+        if ex.branch(z3.Or(it >= n, it < -n)):
+            interp.raise_exc('IndexError', 'index out of range', node)
+        pos = z3.simplify(it + n) if ex.branch(it < 0) else z3.simplify(it)
+        idxs = self.fixed + (pos,)
+        for (pname, pidx, pval) in ex.cell_reads:
+            if pname == self.name and len(pidx) == len(idxs) and all(a.eq(b) for a, b in zip(pidx, idxs)):
+                return pval is None
+        TAG = _ufs(self.name, self.arity)[0]
+        tag = TAG(*idxs)
+        ex.add_axiom(z3.And(tag >= 0, tag < len(ALTS)))
+        for k, alt in enumerate(ALTS):
+            if alt not in self.alts:
+                ex.add_axiom(tag != k)
+        return ex.branch(tag == ALTS.index('none'))
+
     def at(self, interp, pos):
         """cell / sub-array at an index term known to be within bounds"""
         r = self._at(interp, pos)
@@ -253,3 +277,30 @@ def build_array(world, dom, name):
     d_ = Decoder(dec)
     d_.small = list(dims)        # sizes to be kept small when looking for a replayable witness
     return arr, d_
+
+
+class SAbstractKey:
+    """see spec.AbstractKey: `key < v` is LT_<type>(payload of v), an uninterpreted predicate per value type"""
+
+    def __init__(self, name):
+        self.name = name
+
+    def __repr__(self):
+        return f'<abstract key {self.name}>'
+
+    def lt(self, interp, other, node):
+        from .sym import SFloat, SStr, as_real_term, str_term
+        B = z3.BoolSort()
+        n = self.name
+        if other is None:
+            return mk_bool(z3.Const(f'LT_{n}_none', B))
+        if isinstance(other, (bool, SBool)):
+            t = other.t if isinstance(other, SBool) else z3.BoolVal(other)
+            return mk_bool(z3.Function(f'LT_{n}_bool', B, B)(t))
+        if isinstance(other, (int, SInt)):
+            return mk_bool(z3.Function(f'LT_{n}_int', I, B)(as_int_term(other)))
+        if isinstance(other, (float, SFloat)):
+            return mk_bool(z3.Function(f'LT_{n}_float', z3.RealSort(), B)(as_real_term(other)))
+        if isinstance(other, (str, SStr)):
+            return mk_bool(z3.Function(f'LT_{n}_str', z3.StringSort(), B)(str_term(other)))
+        raise Unsupported(f'abstract key compared with {type(other).__name__}', node)
